@@ -59,11 +59,11 @@ func verifC06Next(maxP, maxN int) {
 	c06NextStep(p, n, c06Bytes("b", p+n))
 }
 
-// VerifC06Next: quick bound p <= 2, n <= 4 arbitrary bytes.
-func VerifC06Next() { verifC06Next(2, 4) }
+// VerifC06Next: quick bound p <= 2, n <= 3 arbitrary bytes.
+func VerifC06Next() { verifC06Next(2, 3) }
 
-// VerifC06NextLong: thorough bound p <= 2, n <= 6.
-func VerifC06NextLong() { verifC06Next(2, 6) }
+// VerifC06NextLong: thorough bound p <= 2, n <= 4 (about 10^6 paths; n <= 5 is ~15x that).
+func VerifC06NextLong() { verifC06Next(2, 4) }
 
 // VerifC06NextDate: the only scanner with a window longer than the byte bounds above is
 // looksLikeDate (8..10 bytes: dddd S d[d] S). The window is entered with a date-shaped
